@@ -20,6 +20,9 @@ REPO = os.environ.get("VERIF_REPO", "/repo")
 CACHE = os.path.join(VERIF, ".cache")
 DRIVER = os.path.join(VERIF, "engines/mirfacts/target/release/mirfacts")
 
+# MIR as built (no optimisation), without the compiler-inserted pointer-alignment checks
+# (-Zub-checks=no): those are target-dependent instrumentation, not program logic.
+RUSTFLAGS = "-Zmir-opt-level=0 -Zub-checks=no -Awarnings"
 FULL = "rayon,mmap,zeroize,serde,traits-preview"
 # id -> dict(dir, crate, args, scratch)
 CONFIGS = {
@@ -66,6 +69,7 @@ def tree_key():
         if os.path.exists(extra):
             with open(extra, "rb") as fh:
                 h.update(hashlib.sha256(fh.read()).digest())
+    h.update(RUSTFLAGS.encode())
     return h.hexdigest()[:24]
 
 
@@ -173,7 +177,7 @@ def extract(cfg, force=False, quiet=True):
                 "RUST_BACKTRACE": "0",
                 "CARGO_NET_OFFLINE": "true",
                 "LD_LIBRARY_PATH": nightly_lib() + ":" + env.get("LD_LIBRARY_PATH", ""),
-                "RUSTFLAGS": "-Zmir-opt-level=0 -Awarnings",
+                "RUSTFLAGS": RUSTFLAGS,
                 "RUSTC_WORKSPACE_WRAPPER": DRIVER,
                 "MIRFACTS_CRATE": spec["crate"],
                 "MIRFACTS_OUT": out + ".new",
